@@ -13,7 +13,7 @@ Emit == PrintT(ToJson([n |-> N, phases |-> Phases, trace |-> trace, pc |-> pc, s
                        execsA |-> execsA, losses |-> losses]))
 Ended == Len(trace) > 0 /\ trace[Len(trace)][1] = "end"
 GenInit == Init
-GenNext == \/ \E c \in Cons : FailBuild(c) \/ Lock(c) \/ Sync(c) \/ FinishA(c) \/ Rerun(c)
+GenNext == \/ \E c \in Cons : Step(c)
            \/ /\ Settled /\ ~Ended /\ Emit
               /\ trace' = Append(trace, <<"end", "">>)
               /\ UNCHANGED <<pc, saw, dec, statusA, execsA, wiped, losses, lockA>>
